@@ -235,16 +235,18 @@ def install(interp, lnet):
             return x.as_mseq()
         return None
 
-    old_chain_net = netmod.ns["chain"]
+    old_chain_net = netmod.ns.get("chain")
 
     def chain_net(it, a, k):
         ms = [to_mseq(x) for x in a]
         if all(m is not None for m in ms):
             return MSeq([s for m in ms for s in m.segments], "chain")
+        if old_chain_net is None:
+            raise Unsupported("itertools.chain is not imported in network.py")
         return it.call(old_chain_net, a, k)
 
     netmod.ns["chain"] = Builtin("itertools.chain", chain_net)
-    old_chain = mod.ns["chain"]
+    old_chain = mod.ns.get("chain")
 
     def chain_cs(it, a, k):
         if any(isinstance(x, (_KeyView, AList)) for x in a):
@@ -257,6 +259,8 @@ def install(interp, lnet):
                 else:
                     out.parts.extend(list(it.iterate(x)))
             return out
+        if old_chain is None:
+            raise Unsupported("itertools.chain is not imported in engines/casadi.py")
         return it.call(old_chain, a, k)
 
     mod.ns["chain"] = Builtin("itertools.chain", chain_cs)
